@@ -430,6 +430,9 @@ pub fn build_map(s: &State, order: &KindOrder) -> (AnyMap, BuildInfo) {
         m.add_free_darts(s.n() - 4);
     }
     fill_map(&mut m, s);
+    // construction (whose cost depends on how many tries the hash-order rejection sampling
+    // needed in this process) is not part of what a run measures
+    fast_stm::verif::reset_execution();
     (m, BuildInfo { tries })
 }
 
